@@ -32,6 +32,10 @@ type c16ScanCase struct {
 	DelayMs  int   `json:"delay_ms"`  // per directory-listing step
 	Roots    int   `json:"roots"`
 	Seed     int64 `json:"seed"`
+	// TailDelayMs: instead of slow directory listings, the last Extract call of every scan root
+	// but the last one takes this long, so that a status tick falls between the end of one
+	// root's walk and the start of the next.
+	TailDelayMs int `json:"tail_delay_ms,omitempty"`
 }
 
 type countingLogger struct {
@@ -68,8 +72,17 @@ func buildTree(c c16ScanCase, salt int) memfs.Tree {
 	return memfs.Tree{Nodes: nodes}.Normalize()
 }
 
-func scanOnce(c c16ScanCase, delay time.Duration) ([]string, plugin.ScanStatusEnum) {
+// scanOnce scans the case's roots. tail maps the sequence numbers of Extract calls that are to
+// take c.TailDelayMs (nil: none); the sequence of calls is returned for that purpose.
+func scanOnce(c c16ScanCase, delay time.Duration, tail map[int]bool) ([]string, plugin.ScanStatusEnum, []recext.Call) {
 	rec := &recext.Recorder{}
+	if tail != nil {
+		rec.OnExtract = func(seq int, ext, p string) {
+			if tail[seq] {
+				time.Sleep(time.Duration(c.TailDelayMs) * time.Millisecond)
+			}
+		}
+	}
 	specs := []recext.ExtSpec{
 		{Name: "fake/a", Pred: recext.Pred{Kind: "all"}, PkgsMod: 2},
 		{Name: "fake/b", Pred: recext.Pred{Kind: "ext", Arg: ".txt"}, PkgsMod: 1},
@@ -91,7 +104,7 @@ func scanOnce(c c16ScanCase, delay time.Duration) ([]string, plugin.ScanStatusEn
 		out = append(out, fmt.Sprintf("status %s %v", s.Name, s.Status.Status))
 	}
 	sort.Strings(out)
-	return out, res.Status.Status
+	return out, res.Status.Status, rec.Calls
 }
 
 var logMu sync.Mutex
@@ -106,7 +119,24 @@ func propC16Scan(c c16ScanCase) (ev.Outcome, error) {
 	lg := &countingLogger{}
 	scalibrlog.SetLogger(lg)
 	defer scalibrlog.SetLogger(&scalibrlog.DefaultLogger{})
-	fast, fastStatus := scanOnce(c, 0)
+	fast, fastStatus, calls := scanOnce(c, 0, nil)
+	var tail map[int]bool
+	if c.TailDelayMs > 0 {
+		// the last Extract call on a file of each root but the last (file names carry the root)
+		tail = map[int]bool{}
+		for r := 0; r < c.Roots-1; r++ {
+			last := -1
+			for _, cl := range calls {
+				if strings.HasSuffix(cl.Path, fmt.Sprintf("-%d.txt", r)) && cl.Seq > last {
+					last = cl.Seq
+				}
+			}
+			if last >= 0 {
+				tail[last] = true
+			}
+		}
+		o.Classes = append(o.Classes, "tick_between_scan_roots")
+	}
 	// several delayed scans in parallel, so that the race detector sees real parallelism
 	const par = 3
 	var wg sync.WaitGroup
@@ -116,7 +146,7 @@ func propC16Scan(c c16ScanCase) (ev.Outcome, error) {
 		wg.Add(1)
 		go func(i int) {
 			defer wg.Done()
-			slow[i], slowStatus[i] = scanOnce(c, time.Duration(c.DelayMs)*time.Millisecond)
+			slow[i], slowStatus[i], _ = scanOnce(c, time.Duration(c.DelayMs)*time.Millisecond, tail)
 		}(i)
 	}
 	wg.Wait()
@@ -140,9 +170,39 @@ func genC16Scan(t *rapid.T) c16ScanCase {
 	dirs := rapid.IntRange(8, 14).Draw(t, "dirs")
 	files := rapid.IntRange(1, 3).Draw(t, "files_per")
 	steps := dirs * (files + 2)
-	return c16ScanCase{Dirs: dirs, FilesPer: files, DelayMs: 2800/steps + 1, Roots: rapid.IntRange(1, 2).Draw(t, "roots")}
+	c := c16ScanCase{Dirs: dirs, FilesPer: files, DelayMs: 2800/steps + 1, Roots: rapid.IntRange(1, 2).Draw(t, "roots")}
+	if rapid.IntRange(0, 2).Draw(t, "tail") == 0 {
+		// a status tick between two roots' walks
+		c.Roots = rapid.IntRange(2, 3).Draw(t, "tail_roots")
+		c.DelayMs = 0
+		c.TailDelayMs = rapid.SampledFrom([]int{2100, 2300, 4100}).Draw(t, "tail_delay")
+	}
+	return c
 }
 
 func TestC16_scan(t *testing.T) {
 	ev.Check(t, ev.Get("C16"), ev.Scale(3, 12), genC16Scan, propC16Scan)
+}
+
+// TestC16_scanroots runs the "status tick between two scan roots" shape on every run (the
+// rapid-driven leg above draws it in a third of its few cases).
+func TestC16_scanroots(t *testing.T) {
+	col := ev.Get("C16")
+	completed := false
+	defer func() { col.Flush(completed) }()
+	if ev.Replaying() {
+		completed = true
+		t.Skip("replay files of the scan leg are handled by TestC16_scan")
+	}
+	en := ev.NewEnumerator(t, col)
+	for _, c := range []c16ScanCase{
+		{Dirs: 3, FilesPer: 2, Roots: 2, TailDelayMs: 2300},
+		{Dirs: 2, FilesPer: 1, Roots: 3, TailDelayMs: 2100},
+	} {
+		o, err := ev.Safe(propC16Scan)(c)
+		if !en.Report(c, o, err) {
+			break
+		}
+	}
+	completed = true
 }
